@@ -908,7 +908,7 @@ def run(ctx):
             run_csem(ctx, cexe, [l for l in corpus.read_text().splitlines() if l.strip() and not l.startswith("#")], "custom semaphore corpus")
         ex = gen_csem_exhaustive(thorough)
         run_csem(ctx, cexe, ex, "custom semaphore, every schedule of 2 threads")
-        rnd = gen_csem_random(rng, ctx.scale(4000, 150000))
+        rnd = gen_csem_random(rng, ctx.scale(4000, 80000))
         run_csem(ctx, cexe, rnd, "custom semaphore, random programs and schedules")
         ctx.notes["csem_cases"] = {"exhaustive": len(ex), "random": len(rnd)}
         ctx.sample({"csem": [ex[len(ex) // 2], rnd[0], rnd[-1]]})
